@@ -201,11 +201,13 @@ func IsMatchingCodeIDWithCallee(codeIDOracle func(config.CodeIdentifier) bool, c
 			return codeIDOracle(cid)
 		}
 		if callee != nil {
+			// There is no static callee (the function is called through a function value): the name of the called
+			// value is a register name, the name that must be matched is the one of the callee.
 			pkgName := lang.PackageNameFromFunction(callee)
 			cid := config.CodeIdentifier{
 				Context:    node.Parent().String(),
 				Package:    pkgName,
-				Method:     funcName,
+				Method:     callee.Name(),
 				Receiver:   receiverType,
 				ValueMatch: n.String(),
 			}
